@@ -302,11 +302,27 @@ def _rel(f, e):
     return "+%d" % ((e.get("ln") or f.line) - f.line)
 
 
+def _strip_casts(n):
+    n = ir.unwrap(n)
+    while isinstance(n, dict) and n.get("k") in ("cast", "paren") and isinstance(n.get("e"), dict):
+        n = ir.unwrap(n["e"])
+    return n
+
+
 def _write_form(n):
     """('assign', k) / ('add', k or expr)"""
     if n.get("k") == "bin":
         if n["op"] == "=":
             lv = literal_value(n["r"])
+            if not lv:
+                # `x = static_cast<int>(static_cast<std::size_t>(x) + e)` is what `x += e` does, with its conversions spelled out
+                r = _strip_casts(n["r"])
+                if isinstance(r, dict) and r.get("k") == "bin" and r.get("op") == "+":
+                    tgt = fmt(_strip_casts(n["l"]))
+                    for a, b in ((r["l"], r["r"]), (r["r"], r["l"])):
+                        if fmt(_strip_casts(a)) == tgt:
+                            lb = literal_value(b)
+                            return ("add", lb[1] if lb else b)
             return ("assign", lv[1] if lv else n["r"])
         if n["op"] == "+=":
             lv = literal_value(n["r"])
